@@ -101,12 +101,12 @@ def run(ctx):
 
     # ---- model side
     st_lines = ["same_tokens (a %s) (b %s)" % (r_lex[i][3:], r_lex_out[i][3:]) for i in idx]
-    r_same = dict(zip(idx, ctx.model_batch(st_lines)))
+    r_same = dict(zip(idx, F.model_batch(ctx, st_lines)))
     fc_lines = []
     for i in idx_t:
         fc_lines.append("fmt_check %s (marks_wrap %s) (marks_spans %s)" % (
             r_tr[i][3:], F.lex_spans(r_lex_wrap[i]), F.lex_spans(r_lex_spans[i])))
-    r_fc = dict(zip(idx_t, ctx.model_batch(fc_lines)))
+    r_fc = dict(zip(idx_t, F.model_batch(ctx, fc_lines)))
 
     n_changed = n_ml = n_wrapped = n_le = n_se = 0
     stats = {"same_true": 0, "edits_in_gaps_true": 0, "spans_in_gaps_true": 0}
